@@ -350,9 +350,21 @@ def histories(tier):
         ops = [[st], [['add']], [['remove', 1]], [['remove_all']], [['reset_integrator']], [['switch', 'WHFAST'], ['set', 'dt', 0.01]], [['switch', 'IAS15']], [['switch', 'LEAPFROG']], [['add_var']], []]
         for cfg in ('whfast', 'ias15', 'mercurius'):
             for a, b in itertools.product(ops, repeat=2):
+                hist = [[], a, b + [st] if b and b[0][0] == 'switch' else b]
+                if cfg == 'mercurius' and any(op[0] == 'add_var' for seg in hist for op in seg): continue     # documented as unsupported (the library warns and exits)
+                if steps_empty(hist, 2): continue          # stepping an EMPTY simulation is outside the contract (integrate() exits with NO_PARTICLES first; WHFast's step dereferences particles[0])
                 for pat in ('diff', 'same'):
-                    H.append(dict(cfg=cfg, n=2, hist=[[], a, b + [st] if b and b[0][0] == 'switch' else b], pattern=pat))
+                    H.append(dict(cfg=cfg, n=2, hist=hist, pattern=pat))
     return H
+
+def steps_empty(hist, n):
+    for seg in hist:
+        for op in seg:
+            if op[0] == 'add': n += 1
+            elif op[0] == 'remove': n = max(0, n - 1)
+            elif op[0] == 'remove_all': n = 0
+            elif op[0] == 'step' and n == 0: return True
+    return False
 
 def main():
     tier = os.environ.get('VERIF_TIER') or (sys.argv[1] if len(sys.argv) > 1 else 'quick')
